@@ -114,53 +114,65 @@ Auth(P) ==
 (* every such set is a singleton.                                          *)
 (***************************************************************************)
 AltResults(P, W, q, owner, kind) ==
-    LET O == Outcomes(q, W, ElemTrust(P, q.scope, owner)) IN
+    LET O == Outcomes(q, W, ElemTrust(P, q.scope, owner))
+        errs == O \cap ErrKinds IN
     IF kind = "all"
     THEN IF O = {} THEN {"F"}
          ELSE IF O = {"T"} THEN {"T"}
-         ELSE (IF "F" \in O THEN {"F"} ELSE {}) \cup (IF "E" \in O THEN {"E"} ELSE {})
-    ELSE (IF "T" \in O THEN {"T"} ELSE {}) \cup (IF "E" \in O THEN {"E"} ELSE {})
-         \cup (IF O \cap {"T", "E"} = {} THEN {"F"} ELSE {})
+         ELSE (IF "F" \in O THEN {"F"} ELSE {}) \cup errs
+    ELSE (IF "T" \in O THEN {"T"} ELSE {}) \cup errs
+         \cup (IF O \cap ({"T"} \cup ErrKinds) = {} THEN {"F"} ELSE {})
 
-\* outcomes of one check: subset of {"pass", "fail", "error"}
+\* outcomes of one check: subset of {"pass", "fail"} \cup ErrKinds
 RECURSIVE CheckOutcomesFrom(_, _, _, _, _)
 CheckOutcomesFrom(P, W, c, owner, i) ==
     IF i > Len(c.queries) THEN {IF c.kind = "reject" THEN "pass" ELSE "fail"}
     ELSE LET A == AltResults(P, W, c.queries[i], owner, c.kind) IN
-         (IF "E" \in A THEN {"error"} ELSE {})
+         (A \cap ErrKinds)
          \cup (IF "T" \in A THEN {IF c.kind = "reject" THEN "fail" ELSE "pass"} ELSE {})
          \cup (IF "F" \in A THEN CheckOutcomesFrom(P, W, c, owner, i + 1) ELSE {})
 
 CheckOutcomes(P, W, c, owner) == CheckOutcomesFrom(P, W, c, owner, 1)
 
-\* outcomes of the policy scan: "error", "none" or the 1-based index as a string-free record
+\* outcomes of the policy scan: error kinds, "none" or "matched"
 RECURSIVE PolicyOutcomesFrom(_, _, _, _)
 PolicyOutcomesFrom(P, W, i, j) ==
-    IF i > Len(P.authz.policies) THEN {[k |-> "none", i |-> 0]}
+    IF i > Len(P.authz.policies) THEN {"none"}
     ELSE IF j > Len(P.authz.policies[i].queries) THEN PolicyOutcomesFrom(P, W, i + 1, 1)
     ELSE LET A == AltResults(P, W, P.authz.policies[i].queries[j], AZ, "one") IN
-         (IF "E" \in A THEN {[k |-> "error", i |-> 0]} ELSE {})
-         \cup (IF "T" \in A THEN {[k |-> P.authz.policies[i].kind, i |-> i - 1]} ELSE {})
+         (A \cap ErrKinds)
+         \cup (IF "T" \in A THEN {"matched"} ELSE {})
          \cup (IF "F" \in A THEN PolicyOutcomesFrom(P, W, i, j + 1) ELSE {})
 
-AllChecks(P) ==
-    {[c |-> P.authz.checks[i], owner |-> AZ] : i \in 1..Len(P.authz.checks)}
-    \cup UNION {{[c |-> Blk(P, id).checks[i], owner |-> id] : i \in 1..Len(Blk(P, id).checks)} : id \in BlockIds(P)}
+\* the checks in the order authorize() evaluates them: authorizer, authority, [policies], other blocks
+ChecksOf(P, owner) ==
+    LET cs == IF owner = AZ THEN P.authz.checks ELSE Blk(P, owner).checks IN
+    [i \in 1..Len(cs) |-> [c |-> cs[i], owner |-> owner]]
+RECURSIVE LaterBlockChecks(_, _)
+LaterBlockChecks(P, id) == IF id >= NBlocks(P) THEN <<>> ELSE ChecksOf(P, id) \o LaterBlockChecks(P, id + 1)
 
-\* can the fixpoint computation itself fail on some binding of some rule ?
-RunErrors(P) == \E r \in Rules(P) : RuleErrors(r, World(P))
+\* error kinds reachable when the items of `seq` are evaluated in order, an error aborting the evaluation;
+\* `then` is what follows when every item can complete without error
+RECURSIVE SeqErrs(_, _, _, _)
+SeqErrs(P, W, seq, then) ==
+    IF seq = <<>> THEN then
+    ELSE LET C == CheckOutcomes(P, W, Head(seq).c, Head(seq).owner) IN
+         (C \cap ErrKinds) \cup (IF C \ ErrKinds # {} THEN SeqErrs(P, W, Tail(seq), then) ELSE {})
 
-\* the set of results authorize() can return over all visiting orders: "error" and/or the
-\* (unique) error-free result
+\* error kinds the fixpoint computation can report (every binding of every rule is evaluated
+\* in a pass; which erroring rule is met first depends on the iteration order of the rule store)
+RunErrKinds(P) == UNION {RuleErrKinds(r, World(P)) : r \in Rules(P)}
+RunErrors(P) == RunErrKinds(P) # {}
+
+\* the set of results authorize() can return over all visiting orders: error kinds and/or "result"
+\* (the unique error-free result Auth(P))
 AuthOutcomes(P) ==
-    LET W == World(P)
-        chk == AllChecks(P)
-        pol == PolicyOutcomesFrom(P, W, 1, 1)
-        canError == RunErrors(P) \/ (\E x \in chk : "error" \in CheckOutcomes(P, W, x.c, x.owner))
-                    \/ [k |-> "error", i |-> 0] \in pol
-        canFinish == ~RunErrors(P) /\ (\A x \in chk : CheckOutcomes(P, W, x.c, x.owner) # {"error"})
-                     /\ pol # {[k |-> "error", i |-> 0]}
-    IN (IF canError THEN {"error"} ELSE {}) \cup (IF canFinish THEN {"result"} ELSE {})
+    IF RunErrors(P) THEN RunErrKinds(P)
+    ELSE LET W == World(P)
+             pol == PolicyOutcomesFrom(P, W, 1, 1)
+             tail == SeqErrs(P, W, LaterBlockChecks(P, 1), {"result"})
+             afterPolicies == (pol \cap ErrKinds) \cup (IF pol \ ErrKinds # {} THEN tail ELSE {})
+         IN SeqErrs(P, W, ChecksOf(P, AZ) \o ChecksOf(P, 0), afterPolicies)
 
 Deterministic(P) == Cardinality(AuthOutcomes(P)) = 1
 
